@@ -2309,8 +2309,8 @@ func unparen0(e ast.Expr) ast.Expr {
 // nonNilGuarded maps each return statement that stands in the body of
 // `if X != nil { … }` (X a variable that the body neither assigns nor takes the
 // address of) to X: there X is known to be non-nil.
-func (in *inliner) nonNilGuarded(body *ast.BlockStmt) map[*ast.ReturnStmt]types.Object {
-	out := map[*ast.ReturnStmt]types.Object{}
+func (in *inliner) nonNilGuarded(body *ast.BlockStmt) map[*ast.ReturnStmt]map[types.Object]bool {
+	out := map[*ast.ReturnStmt]map[types.Object]bool{}
 	ast.Inspect(body, func(n ast.Node) bool {
 		ifs, ok := n.(*ast.IfStmt)
 		if !ok {
@@ -2351,9 +2351,11 @@ func (in *inliner) nonNilGuarded(body *ast.BlockStmt) map[*ast.ReturnStmt]types.
 			case *ast.FuncLit:
 				return false
 			case *ast.ReturnStmt:
-				if _, has := out[x]; !has {
-					out[x] = obj
+				// (every enclosing test counts: an inner `if err != nil` inside `if rsp != nil`)
+				if out[x] == nil {
+					out[x] = map[types.Object]bool{}
 				}
+				out[x][obj] = true
 			}
 			return true
 		})
@@ -2393,6 +2395,9 @@ func (in *inliner) classOf(e ast.Expr) string {
 		if _, ok := unparen(x.X).(*ast.CompositeLit); ok && x.Op == token.AND {
 			return "non"
 		}
+	case *ast.CompositeLit:
+		// a struct / array value boxed into an interface, or a slice / map literal: never nil
+		return "non"
 	}
 	return ""
 }
@@ -3293,7 +3298,7 @@ func (in *inliner) expandWith(h *helper, call *ast.CallExpr, thr *threadCtl) (*e
 			if len(o.Results) == nres {
 				retClass[newRets[i]] = in.classOf(o.Results[thr.k])
 				if id, ok := unparen(o.Results[thr.k]).(*ast.Ident); ok && retClass[newRets[i]] == "" {
-					if obj := in.info().Uses[id]; obj != nil && guarded[o] == obj {
+					if obj := in.info().Uses[id]; obj != nil && guarded[o][obj] {
 						retClass[newRets[i]] = "non"
 					}
 				}
